@@ -90,6 +90,30 @@ func checkC10(p *Program, r *Result) {
 	emitBoundReports(p, r, ba, "C10.a", suppress)
 	r.Extra["raw_fields"] = rawFieldList(ba)
 	checkNoAbort(p, r, "C10.e", sortedFuncs(scope))
+
+	// C10.h: decode errors that do not come from the source (parse helpers, validation) are consulted and
+	// propagated; the source-reaching ones are C15.b's.
+	r.rule("C10.h", "every decode/validation error is consulted on every path and returned non-nil", 80)
+	srcSpec := sourceSpec()
+	R := p.reachSet(srcSpec)
+	srcScope := p.scopeFn(srcSpec, R)
+	parseScope := func(site ssa.CallInstruction) (bool, string) {
+		if ok, _ := srcScope(site); ok {
+			return false, ""
+		}
+		f := site.Common().StaticCallee()
+		if f == nil || !p.isRepoFunc(f) {
+			return false, ""
+		}
+		if _, isErr := sigReturnsError(f.Signature); !isErr {
+			return false, ""
+		}
+		return true, funcName(f)
+	}
+	cfg := errFlowCfg{rule: "C10.h", inScope: parseScope}
+	for _, fn := range sortedFuncs(scope) {
+		runErrFlow(p, r, fn, cfg)
+	}
 }
 
 func rawFieldList(ba *boundAnalysis) []string {
